@@ -78,6 +78,8 @@ type State struct {
 	havoc    *NameSet // names havocked relative to fallback (fresh symbols)
 	parents  []*State // merge: ite over parents by conds
 	conds    []string
+	// havocCond, if set, gives the condition under which a havocked name really changes (else it keeps its value)
+	havocCond func(name string) string
 }
 
 func (fc *FnCtx) newRootState(guard string) *State {
@@ -143,6 +145,12 @@ func (s *State) get(name, sortStr string) string {
 		}
 	case s.havoc != nil && s.havoc.Has(name):
 		t = s.fc.declare(fmt.Sprintf("%s@h%d", name, s.id), sortStr)
+		if s.havocCond != nil {
+			c := s.havocCond(name)
+			if c != "true" {
+				t = s.fc.define(fmt.Sprintf("%s@hc%d", name, s.id), sortStr, ite(c, t, s.fallback.get(name, sortStr)))
+			}
+		}
 	default:
 		t = s.fallback.get(name, sortStr)
 	}
